@@ -8,6 +8,7 @@ is the reader's bytewise order, for every key set and both store kinds.
 import JubakoModel.Model.Search
 import JubakoModel.Lemmas.Search
 import JubakoModel.Lemmas.Order
+import JubakoModel.Lemmas.DirFile
 
 namespace Jubako
 
@@ -94,19 +95,8 @@ theorem c03_reader_walk (a b : Bytes) : arrayCmpWalk a b = lexCmp a b := arrayCm
 theorem c03_stored_order (indexed : Bool) (added : List Bytes) (fixed : Nat) (out : List Bytes)
     (hmem : ∀ a ∈ out, a.drop fixed ∈ added)
     (hchk : sortedCheck (writerArrCmp (VStore.finalize indexed added) fixed) out = true) :
-    sortedCheck lexCmp out = true := by
-  induction out with
-  | nil => rfl
-  | cons x rest ih =>
-    cases rest with
-    | nil => rfl
-    | cons y rest' =>
-      simp only [sortedCheck, Bool.and_eq_true] at hchk ⊢
-      obtain ⟨h1, h2⟩ := hchk
-      refine ⟨?_, ih (fun a ha => hmem a (List.mem_cons_of_mem _ ha)) h2⟩
-      rw [← writerArrCmp_eq_lexCmp indexed added fixed x y (hmem x List.mem_cons_self)
-        (hmem y (List.mem_cons_of_mem _ List.mem_cons_self))]
-      exact h1
+    sortedCheck lexCmp out = true :=
+  stored_order indexed added fixed out hmem hchk
 
 /-- the bytewise order satisfies the laws binary search needs, so `c03_find_binary` and
     `c03_find_agree` apply to stores sorted on an array key -/
@@ -118,5 +108,26 @@ theorem c03_lexCmp_laws : OrdLaws lexCmp :=
      · have := (lexCmp_eq_iff b c).mp hc; subst this
        exact absurd h2 h1
      · rfl⟩
+
+/-! ### File level -/
+
+/-- **Stored order (C03) at file level.**  Let common property `k` be an array key (inline prefix
+    `fixed`, value store `st`) and let the stored order pass the creator's own post-sort check with
+    the writer's comparator on that key (`c03_stored_order`).  Then the keys the reader decodes
+    from the written file at positions `0, 1, …` are exactly the written keys, and they are
+    non-decreasing in the reader's bytewise order — the precondition of `c03_find_binary`. -/
+theorem c03_file_sorted_readback (H : Bytes → Bytes) (vendor uuid freeData : Bytes) (d : DirIn)
+    (hwf : d.WF) (hl : d.Limits H vendor uuid freeData) (k fixed st : Nat) (name : Bytes)
+    (hp : d.schema.common[k]? = some ⟨name, .array fixed st⟩)
+    (hchk : sortedCheck (writerArrCmp (d.stores.getD st vsDflt) fixed) (d.arrayKeys k) = true) :
+    (∀ i (hi : i < d.entries.length), ∃ ev,
+      dirGetEntry (dirPackWrite H vendor uuid freeData d) 0 i = .ok ev ∧
+      ev.values[k]? = some (name, .arr ((d.arrayKeys k).getD i []))) ∧
+    sortedCheck lexCmp (d.arrayKeys k) = true :=
+  dirfile_sorted_readback H vendor uuid freeData d hwf hl k fixed st name hp hchk
+
+
+/-- non-vacuity: `DirFileExample.input3`, a store sorted on an array key with duplicates -/
+example := @DirFileExample.input3
 
 end Jubako
